@@ -551,13 +551,58 @@ def checkLayout (spec obs : Mol) : List String :=
   (obs.ixns.eraseDups.filterMap fun i =>
     if countIn i spec.ixns = 0 then some s!"{i.sect} {i.atoms} {i.params}: not an interaction of any block instance" else none)
 
+/-- One application of a link as the program performed it: what the link DEFINITION requires of the place
+(molecule meta data, residue names per residue id, residue-graph edges with their `linktype`), and what the
+application wrote (interactions, atom attributes, removals). -/
+structure LinkUse where
+  molmeta : Attrs
+  resnames : List (Nat × List String)
+  edges : List (Nat × Nat × Option String)
+  inserts : List Ixn
+  attrs : List (Nat × String × String)
+  removed : List Nat
+deriving Repr
+
+/-- the residue-level facts a link's applicability is judged on -/
+structure GraphFacts where
+  molmeta : Attrs
+  resnames : List (Nat × String)
+  edges : List (Nat × Nat × Option String)
+deriving Repr
+
+/-- Necessary conditions for a link to be applicable at a place (the part of applicability the C01 oracle
+judges itself instead of taking the program's word): every `[ molmeta ]` entry of the link is in the
+molecule's meta data; every residue has a name the link allows; every edge of the link between two
+residues is an edge of the residue graph with the same `linktype` (none = untagged). -/
+def LinkUse.applicable (f : GraphFacts) (u : LinkUse) : Bool :=
+  u.molmeta.all (fun kv => attrGet? f.molmeta kv.1 == some kv.2) &&
+  u.resnames.all (fun ra => match (f.resnames.find? (·.1 == ra.1)) with
+    | some rn => ra.2.contains rn.2
+    | none => false) &&
+  u.edges.all (fun e => f.edges.any fun g =>
+    ((g.1 == e.1 && g.2.1 == e.2.1) || (g.1 == e.2.1 && g.2.1 == e.1)) && g.2.2 == e.2.2)
+
 /-- what links and modifications explicitly target -/
 structure Touched where
-  keys : List Key                  -- interaction keys written by an applied link
-  attrs : List (Nat × String)      -- (node, attribute) replaced by an applied link
+  inserted : List Ixn              -- interactions written by applicable link applications, in order
+  attrs : List (Nat × String)      -- (node, attribute) replaced by an applicable link application
   modAtoms : List Nat              -- atoms a selected modification names in its target residue
   removed : List Nat
 deriving Repr
+
+def Touched.keys (t : Touched) : List Key := t.inserted.map keyOf
+
+/-- the interaction the last applicable link application wrote under a key -/
+def Touched.lastInsert (t : Touched) (k : Key) : Option Ixn := (t.inserted.filter (fun i => keyOf i == k)).getLast?
+
+def touchedOf (f : GraphFacts) (uses : List LinkUse) (modAtoms : List Nat) : Touched :=
+  let ok := uses.filter (·.applicable f)
+  ⟨ok.flatMap (·.inserts), ok.flatMap (fun u => u.attrs.map fun a => (a.1, a.2.1)), modAtoms, ok.flatMap (·.removed)⟩
+
+/-- atom names written by applicable link applications -/
+def renamesOf (f : GraphFacts) (uses : List LinkUse) : List (Nat × String) :=
+  (uses.filter (·.applicable f)).flatMap fun u => u.attrs.filterMap fun a =>
+    if a.2.1 == "atomname" then some (a.1, a.2.2) else none
 
 /-- Atoms a selected modification names in its target residue, read off the specification molecule: the
 residue with the selected id — if it is one the modification is applicable to (a protein residue name of the
@@ -582,8 +627,8 @@ def modNamedAtoms (protein : List String) (ff : FF) (spec : Mol) (renames : List
 /-- The frame part of C01 on the final molecule: every atom that no link removed is there and equals the
 specification except attributes a link replaced or atoms a modification names in its target residue;
 every block interaction whose key no link wrote and none of whose atoms was removed is present exactly as
-often as the specification has it; every other interaction has a key written by a link, or lies between
-atoms named by a modification, or is a generated exclusion.  Differences come with a category: `resid`
+often as the specification has it; every other interaction is what the LAST applicable link application wrote under
+its key, or lies between atoms named by a modification, or is a generated exclusion.  Differences come with a category: `resid`
 (an atom numbered by another residue id), `atom`, `ixn`. -/
 def checkFrame (spec obs0 : Mol) (t : Touched) (genExcl : List Ixn) : List (String × String) :=
   -- generated exclusions (C14) are taken out first, as a multiset
@@ -608,7 +653,7 @@ def checkFrame (spec obs0 : Mol) (t : Touched) (genExcl : List Ixn) : List (Stri
         (countIn i obs.ixns > countIn i spec.ixns ∧ i.atoms.all (· ∈ t.modAtoms)) then none
     else some ("ixn", s!"block interaction {i.sect} {i.atoms} {i.params}: {countIn i obs.ixns} times, expected {countIn i spec.ixns}; no link targets it")) ++
   (obs.ixns.eraseDups.filterMap fun i =>
-    if countIn i spec.ixns > 0 ∨ keyOf i ∈ t.keys ∨ i.atoms.all (· ∈ t.modAtoms) then none
-    else some ("ixn", s!"{i.sect} {i.atoms} {i.params}: neither a block interaction nor targeted by a link or modification"))
+    if countIn i spec.ixns > 0 ∨ t.lastInsert (keyOf i) = some i ∨ i.atoms.all (· ∈ t.modAtoms) then none
+    else some ("ixn", s!"{i.sect} {i.atoms} {i.params}: neither a block interaction nor what the last applicable link wrote under its key, nor between atoms of a modification"))
 
 end PolyplyVerif.MapToMol
